@@ -2646,6 +2646,29 @@ fn noise_families(seed: u64, fams: &mut Vec<Family>) {
     ty!("L1BoundSum(max=7,len=4,chunk=3)<Field128>", L1BoundSum<Field128, PS<Field128>>, Field128, L1BoundSum::new(7, 4, 3).expect("ctor"), 4);
     ty!("L1BoundSum(max=p-1,len=1,chunk=1)<Field128>", L1BoundSum<Field128, PS<Field128>>, Field128, L1BoundSum::new(Field128::p() - 1, 1, 1).expect("ctor"), 1);
     ty!("L1BoundSum(max=p-1,len=1,chunk=1)<Field64>", L1BoundSum<Field64, PS<Field64>>, Field64, L1BoundSum::new((Field64::p() - 1) as u64, 1, 1).expect("ctor"), 1);
+    // measurements whose L1 norm overflows the field's integer type: entries are individually in
+    // range (<= max_value) but their sum exceeds the integer type, so the norm cannot be encoded
+    fams.push(fam("flp/L1BoundSum/encode_measurement/l1_norm_overflow", product(&[4]), move |t| {
+        let which = t[0];
+        prep("flp/L1BoundSum/encode_measurement", format!("l1_norm_overflows_integer_type#{which}"), json!({"which": which}), move |cx| match which {
+            0 => {
+                let typ: L1BoundSum<Field64, PS<Field64>> = L1BoundSum::new(1u64 << 63, 2, 8).expect("ctor");
+                drop(cx.call("", Exp::MustErr, || typ.encode_measurement(&vec![1u64 << 63, 1u64 << 63])));
+            }
+            1 => {
+                let typ: L1BoundSum<Field64, PS<Field64>> = L1BoundSum::new((Field64::p() - 1) as u64, 3, 5).expect("ctor");
+                drop(cx.call("", Exp::MustErr, || typ.encode_measurement(&vec![(Field64::p() - 1) as u64, (Field64::p() - 1) as u64, 7])));
+            }
+            2 => {
+                let typ: L1BoundSum<Field128, PS<Field128>> = L1BoundSum::new(1u128 << 127, 2, 8).expect("ctor");
+                drop(cx.call("", Exp::MustErr, || typ.encode_measurement(&vec![1u128 << 127, 1u128 << 127])));
+            }
+            _ => {
+                let vdaf = Prio3::new_l1_bound_sum(2, 1u128 << 127, 2, 8).expect("ctor");
+                drop(cx.call("", Exp::MustErr, || vdaf.shard(b"c16", &vec![1u128 << 127, 1u128 << 127], &[0u8; 16])));
+            }
+        })
+    }));
 }
 
 fn prio3_families(quick: bool, seed: u64) -> Vec<Family> {
